@@ -119,7 +119,7 @@ def run_variant(case, rows, shift=0, mults=None, name="v"):
         else:
             rr.append(dict(mult=(mults or {}).get(ri, 1), release_time=world.iso(t0 + sign * slot * DT), X=x, Y=y, Z=z, tag=tag))
     rr.sort(key=lambda r: sign * world.tosec(r["release_time"]))  # simulation order; stable: keeps the given order within a release time
-    ibm = dict(module=drive.plug("sibm.py"), age=True)
+    ibm = dict(module=drive.plug("sibm.py"), age=True, module_state=True)  # module-level state of a plug-in given by path starts afresh in every run
     if case["death"] in ("ibm", "both"):
         ibm["kill_tags"] = {str(case["kill_step"]): [10 if case["death"] == "ibm" else 11]}
     state = dict(instance_variables=dict(tag="int", temp="float", age="float"), default_values=dict(temp=0.0, age=0.0))
